@@ -10,7 +10,7 @@ import json, os, re, shutil, subprocess, sys, time
 
 ROOT = os.path.dirname(os.path.dirname(os.path.abspath(__file__)))
 REPO = "/repo"
-SCRATCH = "/tmp/mutverify"
+SCRATCH = os.environ.get("MUTVERIFY_DIR", "/tmp/mutverify")
 ALL = ["C%02d" % i for i in range(1, 21)]
 
 
@@ -139,5 +139,5 @@ if __name__ == "__main__":
     else:
         detect(pid, x, "--all" in sys.argv, "--fresh" in sys.argv)
         m = load_meta(os.path.join(ROOT, "seeded", f"{pid}-{x}"))
-        if not m.get("caught_by") and "--all" not in sys.argv:
+        if not m.get("caught_by") and "--all" not in sys.argv and "--target-only" not in sys.argv:
             detect(pid, x, True)
